@@ -243,12 +243,15 @@ def gen_scenario(rng, force: dict | None = None) -> dict:
     if unmatched:
         incs[rng.choice(rels)].append('nomatch*.bean')
     garbage = rng.choice(rels) if rng.random() < 0.04 else None
+    empty = rng.choice(rels[1:]) if len(rels) > 1 and rng.random() < 0.12 else None     # an existing empty file
+    if empty:
+        incs[empty] = []
     eol_global = rng.choice(['lf', 'crlf', 'per-file', 'per-file'])
     files, eols = {}, {}
     for i, r in enumerate(rels):
         em = eol_global if eol_global != 'per-file' else rng.choice(['lf', 'crlf', 'crlf', 'mixed'])
         eols[r] = em
-        files[r] = gen_text(rng, i, incs[r], em, r == garbage)
+        files[r] = '' if r == empty and r != garbage else gen_text(rng, i, incs[r], em, r == garbage)
     cwd, root, kind = rng.choice(SPELLINGS)
     scn = {'mode': 'rec' if rng.random() < 0.8 else 'single', 'files': files, 'dirs': dirs, 'incs': incs,
            'cwd': cwd, 'root': root, 'spelling': kind, 'idx': {r: i for i, r in enumerate(rels)},
@@ -258,7 +261,7 @@ def gen_scenario(rng, force: dict | None = None) -> dict:
     for r in rels:
         x = rng.random()
         if x < 0.35:
-            scn['edits'][r] = rng.choice(['account', 'narration', 'account', 'noop'])
+            scn['edits'][r] = rng.choice(['account', 'narration', 'account', 'noop', 'empty'])
         elif x < 0.45 and r != MAIN and scn['mode'] == 'rec':
             scn['removes'].append(r)
         if scn['mode'] == 'rec' and r not in scn['removes'] and rng.random() < 0.15:
@@ -267,7 +270,8 @@ def gen_scenario(rng, force: dict | None = None) -> dict:
         for j in range(rng.choice([0, 0, 1, 1, 2])):
             suffix = rng.choice([f'n{j}.bean', f'newdir/n{j}.bean', f'inc/n{j}.bean', f'new/deep/n{j}.bean'])
             eol = rng.choice(['\n', '\r\n'])
-            scn['adds'].append([suffix, f'; created {j}{eol}2000-01-03 open Assets:New{j}{eol}'])
+            scn['adds'].append([suffix, '' if rng.random() < 0.35 else
+                                f'; created {j}{eol}2000-01-03 open Assets:New{j}{eol}'])
     if rng.random() < 0.2:
         scn['raise'] = rng.choice(['before', 'after'])
     return scn
@@ -306,6 +310,12 @@ def corpus() -> list[dict]:
     mk(fs, incs, edits={'a.bean': 'account'}, rekeys=[['a.bean', 'abs'], ['inc/d.bean', 'dot'], ['main.bean', 'dotdot']],
        cwd='.', root='main.bean', spelling='bare')
     mk(fs, incs, rekeys=[['inc/c.bean', 'abs'], ['b.bean', 'dotdot']], cwd='..', root='{N}/main.bean', spelling='rel')
+    # empty models: a new placeholder entry, an existing empty file, a file edited down to nothing
+    em = {MAIN: 'include "e.bean"\ninclude "a.bean"\n' + '2000-01-01 open Assets:F0:Acct\n', 'e.bean': '',
+          'a.bean': '2000-01-01 open Assets:F2:Acct'}
+    mk(em, {MAIN: ['e.bean', 'a.bean'], 'e.bean': [], 'a.bean': []}, edits={'a.bean': 'empty', 'e.bean': 'account'},
+       adds=[['2024.bean', ''], ['new/p.bean', '']], cwd='.', root='main.bean', spelling='bare')
+    mk(em, {MAIN: ['e.bean', 'a.bean'], 'e.bean': [], 'a.bean': []}, adds=[['2024.bean', '']], rekeys=[['e.bean', 'abs']])
     # directories with glob magic in their names
     o = '2000-01-01 open Assets:F%d:Acct\n'
     mg = {MAIN: 'include "x[[]ab]/g.bean"\ninclude "led[[]2020]/i.bean"\ninclude "st[*]r/k.bean"\ninclude "q[?]/l.bean"\n' + o % 0,
@@ -500,6 +510,9 @@ def _body(scn, files, D, models, parser):
             continue
         f = files[by_rel[rel]]
         i = scn['idx'][rel]
+        if kind == 'empty':
+            f.raw_directives_with_comments.clear()
+            continue
         for d in f.raw_directives:
             if kind in ('account', 'noop') and isinstance(d, models.Open):
                 d.raw_account.value = f'Assets:Edited{i}' if kind == 'account' else d.raw_account.value
@@ -517,8 +530,11 @@ def _body(scn, files, D, models, parser):
     first = next(iter(by_rel.values()), None) if MAIN not in by_rel else by_rel[MAIN]
     for suffix, text in scn['adds']:
         key = os.path.join(os.path.dirname(first), suffix)
-        files[key] = parser.parse(text, models.File)
-        del _PARSE_LOG[-1]
+        if text == '':
+            files[key] = models.File.from_children([])      # a placeholder: prints as the empty string
+        else:
+            files[key] = parser.parse(text, models.File)
+            del _PARSE_LOG[-1]
     if scn['raise'] == 'after':
         raise BodyRaised()
 
@@ -615,6 +631,8 @@ def monitors(scn, obs, reach: tuple[set[str], bool]) -> list[tuple[str, str]]:
     removed = {r for r in scn['removes'] if r in in_map}
     rekeyed = {r for r, _ in scn.get('rekeys', []) if r in in_map and r not in removed} if scn['mode'] == 'rec' else set()
     reported: set[str] = set()
+    printed_by_rel = {os.path.relpath(os.path.abspath(os.path.join(obs['cwd'], k)), D): t.encode('ascii')
+                      for k, t in obs['body_out'] or []}
     first_key = next((k for k in keys if os.path.abspath(os.path.join(obs['cwd'], k)) == os.path.join(D, MAIN)), keys[0])
     added = {}
     if scn['mode'] == 'rec':
@@ -628,6 +646,10 @@ def monitors(scn, obs, reach: tuple[set[str], bool]) -> list[tuple[str, str]]:
                 fails.append(('C16:removed-not-deleted', f'{rel} was removed from the mapping but still exists'))
             continue
         want = expected_edit(scn, rel, data) if rel in in_map else data
+        if rel in in_map and scn['edits'].get(rel) == 'empty' and rel in printed_by_rel:
+            want = printed_by_rel[rel]
+            if want not in (b'', b'\n', b'\r\n'):
+                fails.append(('C16:harness', f'{rel}: emptied model prints {want!r}'))
         if rel in rekeyed and rel not in after:
             reported.add(rel)
             fails.append(('C16:rekeyed-entry-lost',
@@ -778,13 +800,62 @@ def all_scenarios(ctx, n: int) -> list[dict]:
     return corpus() + [gen_scenario(ctx.rng) for _ in range(n)]
 
 
+SYMLINK_SIG = 'C16:normpath-collapses-symlink-dotdot'
+
+
+def symlink_probe(ctx) -> tuple[str, str] | None:
+    """Directed scenario: other/link -> real/sub; the spelling other/link/../main.bean denotes real/main.bean for
+    the OS. The property ('for any way of spelling the path') wants the edit in that file and nowhere else."""
+    from autobean_refactor import editor as editor_lib
+    top = os.path.realpath(tempfile.mkdtemp(prefix='s', dir=str(ctx.scratch)))
+    try:
+        os.makedirs(top + '/real/sub')
+        os.makedirs(top + '/other')
+        try:
+            os.symlink(top + '/real/sub', top + '/other/link')
+        except (OSError, NotImplementedError, AttributeError) as e:
+            ctx.notes.append(f'symlink scenario skipped: {type(e).__name__}')
+            return None
+        for d, acct in (('real', 'Real'), ('other', 'Other')):
+            with open(f'{top}/{d}/main.bean', 'wb') as f:
+                f.write(f'2000-01-01 open Assets:{acct}\n'.encode())
+        spelling = top + '/other/link/../main.bean'
+        target = os.path.realpath(spelling)
+        out = {}
+        for name in ('edit_file_recursive', 'edit_file'):
+            ed = editor_lib.Editor(_parser())
+            before = {d: open(f'{top}/{d}/main.bean', 'rb').read() for d in ('real', 'other')}
+            with getattr(ed, name)(spelling) as x:
+                f = x if name == 'edit_file' else next(iter(x.values()))
+                f.raw_directives[0].raw_account.value = 'Assets:Edited'
+            after = {d: open(f'{top}/{d}/main.bean', 'rb').read() for d in ('real', 'other')}
+            out[name] = (after['real'] == b'2000-01-01 open Assets:Edited\n' and after['other'] == before['other'],
+                         after['other'] != before['other'])
+            for d in ('real', 'other'):
+                with open(f'{top}/{d}/main.bean', 'wb') as f:
+                    f.write(before[d].replace(b'Edited', b'Real' if d == 'real' else b'Other'))
+        assert target == top + '/real/main.bean'
+        ctx.dist('symlink-scenario')
+        if not out['edit_file'][0]:
+            return ('C16:symlink-edit_file', 'edit_file through <symlinked dir>/../main.bean did not edit the file the OS resolves')
+        if not out['edit_file_recursive'][0]:
+            return (SYMLINK_SIG,
+                    'edit_file_recursive keys by os.path.normpath, which collapses "<symlinked dir>/.." textually: with '
+                    'other/link -> real/sub the spelling other/link/../main.bean denotes real/main.bean for the OS (and for '
+                    'edit_file), but the recursive editor opens and rewrites other/main.bean'
+                    + ('' if out['edit_file_recursive'][1] else ' (other file not rewritten either)'))
+        return None
+    finally:
+        shutil.rmtree(top, ignore_errors=True)
+
+
 def run(ctx: common.Ctx):
     ctx.rule = ('hand-written corpus (bare path, CRLF, cycle+diamond+glob) then seeded scenarios: 1-7 files in up to 5 '
                 'directories, 0-3 include directives per file (relative paths with ./ and ../, globs incl. **, '
                 'self/cyclic/shared includes, rarely unmatched; 30% of the trees have directories named with [ ] * ? next to '
                 'look-alike siblings), LF / CRLF / mixed line ends, 13 root spellings '
                 '(bare, relative, absolute, redundant separators, .. components; cwd = tree, its parent, a subdirectory), '
-                'body = random subsets edited (one token) / removed / added / re-keyed to another spelling of the same file '
+                'body = random subsets edited (one token, or emptied) / removed / added (35% with an empty model) / re-keyed to another spelling of the same file '
                 '(abspath, ./, ../dir/), raising before or after its edits; '
                 'non-trivial = >= 2 files or an edit or a raise; distinct by the whole scenario')
     ctx.assumptions += [
@@ -805,6 +876,10 @@ def run(ctx: common.Ctx):
         'that this is "the files the include directive names" relies on the directory part being glob.escape()d '
         '(w_escape, read from the source); the visit-once monitor computes reachability with an escaped directory',
         'POSIX: os.linesep = "\\n" (text-mode writes do not translate), paths are posixpath',
+        'symbolic links are outside the model file system (canon = os.path.abspath, purely textual): with a symlinked '
+        'directory, normpath("link/..") names a different file than the OS resolves; edit_file_recursive keys by '
+        'normpath and so edits the wrong file (known finding C16:normpath-collapses-symlink-dotdot, one directed '
+        'scenario per run); hard links likewise',
         'not modelled: encodings (contents are ASCII), partial writes, concurrent writers, permissions, '
         'intermediate directories created by makedirs',
     ]
@@ -821,6 +896,9 @@ def run(ctx: common.Ctx):
                  'the include relation only when the directory part of the pattern is glob.escape()d; editor.py has '
                  f'translate={cfg[0]}, guard={cfg[1]}, escape={cfg[2]}')
     run_scenarios(ctx, cfg, all_scenarios(ctx, ctx.scale(220, 2500)))
+    r = symlink_probe(ctx)
+    if r:
+        ctx.monitor_failure(r[0], r[1], {'directed': 'symlink-dotdot'})
 
 
 def search(ctx: common.Ctx):
@@ -831,6 +909,10 @@ def search(ctx: common.Ctx):
 def replay(ctx, path):
     data = json.loads(open(path).read())
     f = data.get('failure') or (data.get('what_no_longer_checks') or [{}])[0]
+    if (f.get('witness') or {}).get('directed') == 'symlink-dotdot':
+        r = symlink_probe(ctx)
+        print('monitor:', *(r or ('(no failure)',)))
+        return 1 if r else 0
     scn = (f.get('witness') or {}).get('scenario')
     if not scn:
         print(json.dumps(f, indent=1))
